@@ -9,6 +9,7 @@ import QV.Model.Metrics
 import QV.Lemmas.Metrics
 
 namespace QV
+namespace C10L
 open Matrix Metrics
 open scoped ComplexOrder
 
@@ -81,4 +82,5 @@ theorem matC_fidProd (N : ℕ) (T rho : ℕ → ℕ → C ℝ) (Z : ℝ) :
   ext i j
   simp only [matC, fidProd, Matrix.of_apply, Matrix.mul_apply, toC_Csum, toC_mul]
 
+end C10L
 end QV
